@@ -398,33 +398,7 @@ def escaped_variable(vhdl, exc):
 
 
 def py_targets(design):
-    """python mirror of Drivers.conc_targets for diagnosis: per concurrent statement [(root, lo, len)]"""
-    ty = {s.name.lower(): s.ty for s in design.sigs}
-
-    def size(t):
-        if t.kind == "vec":
-            return t.w
-        if t.kind == "arr":
-            return t.n * size(t.elem)
-        return 1
-
-    def rng_of(t, base, path):
-        if not path:
-            return (base, size(t))
-        s = path[0]
-        if s[0] == "idx":
-            i = s[1]
-            if i[0] == "lit" and i[1][0] == "I" and i[1][1] >= 0:
-                k = i[1][1]
-                if t.kind == "vec" and k < t.w and len(path) == 1:
-                    return (base + k, 1)
-                if t.kind == "arr" and k < t.n:
-                    return rng_of(t.elem, base + k * size(t.elem), path[1:])
-            return (base, size(t))
-        if t.kind == "vec" and s[2] <= s[1] < t.w and len(path) == 1:
-            return (base + s[2], s[1] - s[2] + 1)
-        return (base, size(t))
-
+    """python mirror of Drivers.conc_writes for diagnosis: per concurrent statement [(root, path)]"""
     def stmt_targets(ss, acc):
         for s in ss:
             if s[0] == "sig":
@@ -442,8 +416,30 @@ def py_targets(design):
     res = []
     for c in design.conc:
         tg = [c[1]] if c[0] in ("assign", "select") else stmt_targets(c[3], [])
-        res.append([(n.lower(),) + rng_of(ty[n.lower()], 0, p) for n, p in tg if n.lower() in ty])
+        res.append([(n.lower(), p) for n, p in tg])
     return res
+
+
+def py_sel_disjoint(p, q):
+    """mirror of Drivers.sel_disjoint"""
+    def static(s):
+        i = s[1]
+        return i[1][1] if (i[0] == "lit" and i[1][0] == "I" and i[1][1] >= 0) else None
+
+    if not p or not q:
+        return False
+    a, b = p[0], q[0]
+    if a[0] == "idx" and b[0] == "idx":
+        n, m = static(a), static(b)
+        if n is None or m is None:
+            return False
+        return py_sel_disjoint(p[1:], q[1:]) if n == m else True
+    if a[0] == "idx" and b[0] == "slice":
+        n = static(a)
+        return n is not None and len(p) == 1 and len(q) == 1 and (n < b[2] or b[1] < n)
+    if a[0] == "slice" and b[0] == "idx":
+        return py_sel_disjoint(q, p)
+    return len(p) == 1 and len(q) == 1 and (a[1] < b[2] or b[1] < a[2])
 
 
 def driver_lines(vhdl, roots):
@@ -460,13 +456,13 @@ def py_clash(design):
     tg = py_targets(design)
     dirs = {s.name.lower(): s.dir for s in design.sigs}
     for i in range(len(tg)):
-        for (r, lo, n) in tg[i]:
+        for (r, p) in tg[i]:
             if dirs.get(r) == "in":
                 return ("in-port-assigned", r)
         for j in range(i + 1, len(tg)):
-            for (r1, lo1, n1) in tg[i]:
-                for (r2, lo2, n2) in tg[j]:
-                    if r1 == r2 and not (lo1 + n1 <= lo2 or lo2 + n2 <= lo1):
+            for (r1, p1) in tg[i]:
+                for (r2, p2) in tg[j]:
+                    if r1 == r2 and not py_sel_disjoint(p1, p2):
                         return ("two-drivers", r1)
     return None
 
@@ -784,7 +780,8 @@ def run(ck: common.Check, replay=None):
     ck.cov["rule"] = ("one case per distinct placement (objects with kind, list of (place, access, part)); every placement "
                       "contains at least one access of a user object from a context or an instance output, so none is trivial")
     ck.trusted += ["fail-closed VHDL reader (harness/vhdl_reader.py) incl. its net-collapse elaboration",
-                   "Vhdl.Sem (modelled VHDL-93 simulation cycle) as the meaning of 'driver order does not matter'",
+                   "Vhdl.Sem (modelled VHDL-93 simulation cycle) as the meaning of 'driver order does not matter' "
+                   "(C07_single_driver_sound: one delta cycle is independent of the statement order)",
                    "the placement -> source rendering of harness/c07.py (the model sees the placement, the compiler the source)"]
     ck.assumptions += [
         "nested generic blocks cannot be created on this tree (std.block raises TypeError: Block is no context manager); "
